@@ -19,16 +19,17 @@
     `target_scale`              : output scale = requested (exact scales mod prime t, units), d < 64;
                                   `target_scale_of_level` and `sim_backpropagation_spec` for EVERY degree
     `too_few_levels`, `constant_polynomial_spec`, `mulThenAdd_keeps_degree_two_part`
-  Witnesses (kernel evaluation of the machine, tied to the real code by the harness): `even_flag_refused`,
-  `flags_cleared_drop_constants` (user-set IsOdd/IsEven), `bfv_no_level_consumed`,
-  `bfv_refused_below_depth`, `prefilled_basis` (`EvaluateFromPowerBasis`).
+  Witnesses (kernel evaluation of the machine, tied to the real code by the harness): `even_flag_evaluates`,
+  `flags_cleared_general` (user-set IsOdd/IsEven), `bfv_no_level_consumed`,
+  `bfv_below_depth_evaluates`, `partial_basis_regenerated`, `prefilled_basis` (`EvaluateFromPowerBasis`).
   What remains a tie/probe only: the ordered op trace itself, ckks scales (128-bit floats; probe 2^-30),
   composite circuits (sign/step/inverse/mod1); open for all degrees: `∀ d, depthOK d lazy` (the level-only
   run of degree d from ⌈log2(d+1)⌉ levels ends at level 0) — checked here for d < 64.
 
   The model follows the code with the fixes C13-1 (bgv `MulThenAdd` keeps the accumulator's degree and
   takes the smaller level; the ckks counterpart is C06-6/C06-7), C13-2 (constant polynomials) and
-  C13-3 (guard of `bignum.Polynomial.Factorize`) applied: `mulThenAdd_keeps_degree_two_part`,
+  C13-3 (guard of `bignum.Polynomial.Factorize`), C13-4 (constants under cleared flags), C13-5 (even flag, one
+  coefficient), C13-6 (no level guard in the scale-invariant mode), C13-7 (powers of two generated one by one) applied: `mulThenAdd_keeps_degree_two_part`,
   `constant_polynomial_spec`, `factorize_guard_spec`.
 -/
 import Lattigo.Proofs.PolyEvalDepth
@@ -157,23 +158,22 @@ theorem depth_spec_of_check (env : Env) (ho : env.odd = true) (he : env.even = t
     (¬ env.t = 0 ∧ ∃ tr er, run env polys mapping lazy (L0 + kn) inScale tScale x = (tr, er, none)) :=
   levels_of_levelRunOK env ho he d lazy L0 Lout hok polys hp mapping kn inScale tScale x
 
-/-- **depth_spec_bfv**: scale-invariant mode, `1 ≤ d < 64`: from any accepted input level
-    `L ≥ Depth() = ⌈log2 d⌉` the run ends at level `L` — no level is consumed -/
+/-- **depth_spec_bfv**: scale-invariant mode, `1 ≤ d < 64`: from EVERY input level `L` the run ends at
+    level `L` — no level is consumed, none is required -/
 theorem depth_spec_bfv (env : Env) (hc : env.cheb = false) (hi : env.inv = true) (ho : env.odd = true)
     (he : env.even = true) (d : Nat) (hd1 : 1 ≤ d) (hd : d < 64)
     (polys : List (List Int)) (hp : (polys.headD []).length = d + 1) (mapping : Option (List (List Nat)))
-    (lazy : Bool) (L : Nat) (hL : depthCheck d ≤ L) (inScale tScale : Nat) (x : List Int) :
+    (lazy : Bool) (L : Nat) (inScale tScale : Nat) (x : List Int) :
     (∃ tr o, run env polys mapping lazy L inScale tScale x = (tr, "ok", some o) ∧ o.level = (L : Int)) ∨
     (¬ env.t = 0 ∧ ∃ tr er, run env polys mapping lazy L inScale tScale x = (tr, er, none)) := by
-  have hok : levelRunOK env.cheb env.inv d lazy (depthCheck d) (depthCheck d) = true := by
+  have hok : levelRunOK env.cheb env.inv d lazy 0 0 = true := by
     rw [hc, hi]
     have := bfvOK_below_64 (d - 1) (by omega) lazy
     rwa [show d - 1 + 1 = d by omega] at this
-  obtain ⟨kn, rfl⟩ : ∃ kn, L = depthCheck d + kn := ⟨L - depthCheck d, by omega⟩
-  rcases levels_of_levelRunOK env ho he d lazy _ _ hok polys hp mapping kn inScale tScale x with
+  rcases levels_of_levelRunOK env ho he d lazy 0 0 hok polys hp mapping L inScale tScale x with
     ⟨tr, o, h1, h2⟩ | h
-  · left; exact ⟨tr, o, h1, by rw [h2]; push_cast; ring⟩
-  · right; exact h
+  · left; exact ⟨tr, o, by simpa using h1, by rw [h2]; simp⟩
+  · right; simpa using h
 
 /-- **depth_spec_chebyshev**: Chebyshev basis, standard mode, `1 ≤ d < 32` -/
 theorem depth_spec_chebyshev (env : Env) (hc : env.cheb = true) (hi : env.inv = false) (ho : env.odd = true)
@@ -259,9 +259,10 @@ theorem depth_guard_gap (k : Nat) (hk : 1 ≤ k) :
     depthCheck (2 ^ k) = k ∧ polynomialDepth (2 ^ k) + 1 = k + 1 :=
   Lattigo.Model.PolyEval.depth_guard_gap k hk
 
-/-- **too_few_levels**: below the guard the machine refuses with `err` before emitting any operation
-    (every mode: also the scale-invariant one, which consumes no level — see `bfv_refused_below_depth`) -/
-theorem too_few_levels (env : Env) (polys : List (List Int)) (mapping : Option (List (List Nat)))
+/-- **too_few_levels**: in the standard mode, below the guard the machine refuses with `err` before
+    emitting any operation (the scale-invariant mode consumes no level and has no guard:
+    `bfv_below_depth_evaluates`) -/
+theorem too_few_levels (env : Env) (hi : env.inv = false) (polys : List (List Int)) (mapping : Option (List (List Nat)))
     (lazy : Bool) (inLevel inScale tScale : Nat) (x : List Int)
     (h : inLevel < depthCheck ((polys.headD []).length - 1)) :
     run env polys mapping lazy inLevel inScale tScale x = ([], "err", none) := by
@@ -271,15 +272,15 @@ theorem too_few_levels (env : Env) (polys : List (List Int)) (mapping : Option (
     exact_mod_cast h
   rw [run_eq]
   simp only [evaluate, evaluateFrom, ex_bind, ex_setP, ex_getP, List.find?, beq_self_eq_true, hdeg,
-    if_false, h', if_true, ex_throw]
+    if_false, h', hi, Bool.not_false, Bool.true_and, decide_true, if_true, ex_throw]
 
 example : (3 : Nat) < depthCheck (([List.replicate 17 (1 : Int)].headD []).length - 1) := by decide
 
-/-- **constant_polynomial_spec**: a constant polynomial `c` (no mapping, the constructor's flags
-    `IsOdd = IsEven = true`) is accepted at every input level, consumes no level, and yields one
-    operation — the addition of the coefficient to a fresh zero ciphertext at the requested scale:
+/-- **constant_polynomial_spec**: a constant polynomial `c` (no mapping; any flags but odd-and-not-even,
+    under which a constant is read as 0) is accepted at every input level, consumes no level, and yields
+    one operation — the addition of the coefficient to a fresh zero ciphertext at the requested scale:
     level = input level, scale = target scale, value `c` in every slot (mod `t`). -/
-theorem constant_polynomial_spec (env : Env) (ho : env.odd = true) (he : env.even = true) (c : Int) (lazy : Bool)
+theorem constant_polynomial_spec (env : Env) (hf : (env.even || !env.odd) = true) (c : Int) (lazy : Bool)
     (inLevel inScale tScale : Nat) (x : List Int) :
     run env [[c]] none lazy inLevel inScale tScale x
       = ([s!"add({showOpd env { level := inLevel, scale := tScale, deg := 1, val := [] }},c)"], "ok",
@@ -287,7 +288,7 @@ theorem constant_polynomial_spec (env : Env) (ho : env.odd = true) (he : env.eve
                 val := zipV (fun a b => redV env (a + b)) (List.replicate env.slots 0)
                   (List.replicate env.slots c) }) := by
   rw [run_eq]
-  simp [evaluate, evaluateFrom, evalFromPowerBasis, addConst, coeffVec, showOpd, ho, he,
+  simp [evaluate, evaluateFrom, evalFromPowerBasis, addConst, coeffVec, showOpd, hf,
     ex_bind, ex_getP, ex_map]
 
 example : ({ t := 65537, q := [1], cheb := false, slots := 4 } : Env).odd = true := rfl
@@ -326,24 +327,23 @@ theorem factorizeF_default {R : Type} (O : ValOps R) (cheb b : Bool) (n : Nat) (
 def envW (odd even inv : Bool) : Env :=
   { t := 65537, q := [705, 16321, 16577], cheb := false, slots := 2, odd := odd, even := even, inv := inv }
 
-/-- **even_flag_refused** (finding C13-5, a counterexample to "odd/even/general polynomials evaluate"):
-    the EVEN polynomial `5 + 11·X²`, truthfully flagged `IsOdd = false, IsEven = true`, is refused by the
-    bgv evaluator with an error although the input has the levels it needs (the unflagged evaluation
-    returns `5 + 11·x²`).  The quotient `[11]` has one coefficient; `minimumDegreeNonZeroCoefficient`
-    is `len-1 = 0` DEcremented for even-and-not-odd, so the constant path is missed and the accumulator
-    is allocated with `maximumCiphertextDegree = 0`; `EvaluateMonomial` then multiplies a degree-0
-    "ciphertext".  Test by evaluation of the machine (the tie lines reproduce it on the real code). -/
-theorem even_flag_refused :
-    (run (envW false true false) [[5, 0, 11]] none false 2 1 1 [2, 3]).2.1 = "err" ∧
+/-- **even_flag_evaluates** (after fix C13-5; formerly the counterexample `even_flag_refused`): the EVEN
+    polynomial `5 + 11·X²`, truthfully flagged `IsOdd = false, IsEven = true`, evaluates to `5 + 11·x²`
+    like the unflagged one.  (Before the fix `minimumDegreeNonZeroCoefficient` of the one-coefficient
+    quotient `[11]` was decremented to -1, the accumulator allocated with ciphertext degree 0, and bgv's
+    `Mul` refused it.)  Test by evaluation of the machine; the tie lines reproduce it on the real code. -/
+theorem even_flag_evaluates :
+    (run (envW false true false) [[5, 0, 11]] none false 2 1 1 [2, 3]).2.2.map (·.val) = some [49, 104] ∧
     (run (envW true true false) [[5, 0, 11]] none false 2 1 1 [2, 3]).2.2.map (·.val) = some [49, 104] := by
   decide +kernel
 
-/-- **flags_cleared_drop_constants** (finding C13-4): with `IsOdd = IsEven = false` — "neither odd nor
-    even" — every power is used but the constant coefficient of every baby step is dropped (it is
-    added only under `IsEven`): `5 + 7·X` evaluates to `7·x`. -/
-theorem flags_cleared_drop_constants :
-    (run (envW false false false) [[5, 7]] none false 1 1 1 [2, 3]).2.2.map (·.val) = some [14, 21] ∧
-    (run (envW true true false) [[5, 7]] none false 1 1 1 [2, 3]).2.2.map (·.val) = some [19, 26] := by
+/-- **flags_cleared_general** (after fix C13-4; formerly `flags_cleared_drop_constants`): with
+    `IsOdd = IsEven = false` — "neither odd nor even" — every power is used AND the constant coefficient of
+    every baby step is added (`even || !odd`): `5 + 7·X` evaluates to `5 + 7·x`. -/
+theorem flags_cleared_general :
+    (run (envW false false false) [[5, 7]] none false 1 1 1 [2, 3]).2.2.map (·.val) = some [19, 26] ∧
+    (run (envW false false false) [[5, 7, 11, 13, 17, 19]] none false 3 1 1 [2, 3]).2.2.map (·.val)
+      = some [1047, 6470] := by
   decide +kernel
 
 /-- **bfv_no_level_consumed**: in the scale-invariant mode the output level is the input level and the
@@ -355,12 +355,26 @@ theorem bfv_no_level_consumed :
       = some (0, 9, [167, 476]) := by
   decide +kernel
 
-/-- **bfv_refused_below_depth** (observation C13-6): the scale-invariant mode consumes no level, yet an
-    input below `Depth() = ⌈log2 deg⌉` levels is refused (`levelsConsumedPerRescaling·Depth()` is
-    checked whatever the mode): degree 3 at level 1 -/
-theorem bfv_refused_below_depth :
-    run (envW true true true) [[5, 7, 11, 13]] none false 1 1 1 [2, 3] = ([], "err", none) :=
-  too_few_levels _ _ _ _ _ _ _ _ (by decide)
+/-- **bfv_below_depth_evaluates** (after fix C13-6; formerly `bfv_refused_below_depth`): the
+    scale-invariant mode consumes no level and accepts every input level: degree 3 (`Depth() = 2`) at
+    level 1 and at level 0 -/
+theorem bfv_below_depth_evaluates :
+    (run (envW true true true) [[5, 7, 11, 13]] none false 1 1 9 [2, 3]).2.2.map (fun o => (o.level, o.scale, o.val))
+      = some (1, 9, [167, 476]) ∧
+    (run (envW true true true) [[5, 7, 11, 13]] none false 0 1 9 [2, 3]).2.2.map (fun o => (o.level, o.scale, o.val))
+      = some (0, 9, [167, 476]) := by
+  decide +kernel
+
+/-- **partial_basis_regenerated** (after fix C13-7): `EvaluateFromPowerBasis` on a basis that holds `X⁴`
+    but not `X²` (generated, then dropped by the caller), even polynomial flagged even-and-not-odd:
+    `X²` — a baby-step power that no other power's generation brings back — is generated again; same
+    result as `Evaluate`.  (Before the fix: nil dereference.) -/
+theorem partial_basis_regenerated :
+    (runFrom { envW false true false with q := [705, 16321, 16577, 15553] } [.gen 4 false, .del 2] [[3, 0, 4, 0, 1]]
+        none false 3 1 1 [2, 3]).2.2.map (fun o => (o.level, o.scale, o.val)) = some (0, 1, [35, 120]) ∧
+    (run { envW false true false with q := [705, 16321, 16577, 15553] } [[3, 0, 4, 0, 1]]
+        none false 3 1 1 [2, 3]).2.2.map (fun o => (o.level, o.scale, o.val)) = some (0, 1, [35, 120]) := by
+  decide +kernel
 
 /-- **prefilled_basis**: `EvaluateFromPowerBasis` on a basis that already holds `X²` and a lazily
     generated `X³` returns the same operand as `Evaluate` and only emits what is left to do -/
@@ -397,10 +411,11 @@ theorem prefilled_basis :
 #print axioms factorize_guard_spec
 #print axioms unmapped_slots_zero
 #print axioms factorizeF_default
-#print axioms even_flag_refused
-#print axioms flags_cleared_drop_constants
+#print axioms even_flag_evaluates
+#print axioms flags_cleared_general
 #print axioms bfv_no_level_consumed
-#print axioms bfv_refused_below_depth
+#print axioms bfv_below_depth_evaluates
+#print axioms partial_basis_regenerated
 #print axioms prefilled_basis
 
 end Lattigo.Props.C13
